@@ -65,8 +65,8 @@ def run_harnesses(harnesses, timeout_s, jobs=None, tag="run"):
                                             note=f"kani did not produce results: {why} | {tail[-400:]}"))
         return results
     res = {r["harness_id"]: r for r in data.get("verification_results", {}).get("results", [])}
-    pdet = {r["harness_id"]: r["property_details"] for r in data.get("property_details", [])}
-    cstat = {r["harness_id"]: r.get("cbmc_stats", {}) for r in data.get("cbmc", [])}
+    pdet = {r["harness_id"]: (r.get("property_details") or {}) for r in data.get("property_details", [])}
+    cstat = {r["harness_id"]: (r.get("cbmc_stats") or {}) for r in data.get("cbmc", [])}
     errs = {r["harness_id"]: r for r in data.get("error_details", [])}
     for hid, h in by_mod.items():
         r = res.get(hid)
